@@ -387,15 +387,19 @@ def dedupFrom (seen : List Name) : List Name → List Name
 
 def dedup (l : List Name) : List Name := dedupFrom [] l
 
-/-- Children of a feature, in the order they are visited: a builtin's `features` entry
+/-- Features a feature enables, in the order they are visited: a builtin's `features` entry
     (right to left) and boolean entries naming builtins, then the `features` key of its
     `[delta "f"]` section (right to left) and the builtin flags set there. -/
-def childrenOf (bs : Builtins) (π : List Name) (g : GitCfg) (f : Name) : List Name :=
+def childrenAll (bs : Builtins) (π : List Name) (g : GitCfg) (f : Name) : List Name :=
   (match lookup f bs with
    | none => []
    | some t => featuresOf t ++ π.filter (flagTrue t)) ++
   secFeatures g (some f) ++
   π.filter (fun c => g.getBool (some f) c = some true)
+
+/-- … without the feature itself (every builtin feature lists its own flag). -/
+def childrenOf (bs : Builtins) (π : List Name) (g : GitCfg) (f : Name) : List Name :=
+  (childrenAll bs π g f).filter (· ≠ f)
 
 /-- Pre-order traversal of the feature tree below `f`, unfolded to depth `d`. -/
 def preorder (children : Name → List Name) : Nat → Name → List Name
